@@ -79,6 +79,11 @@ def discharge_one(job):
                 res.update(result=r0, backend="cvc5-1.0.3", model=None, reason="")
                 return res
             opts = dict(opts, cvc5=False)  # already asked
+        if r == "unknown" and opts.get("z3_probe_ms") and opts["z3_probe_ms"] < first:
+            # the probe was shorter than the regular first z3 stage: that stage is run now, then the pipeline continues as usual
+            r, dt, model, reason = _check_z3(smt2, first)
+            res["ms"] += int(dt * 1000)
+            res.update(result=r, backend="z3-" + z3.get_version_string(), model=model, reason=reason)
         if r == "unknown" and "forall" in smt2:
             # pure E-matching (no model-based instantiation): quantified obligations whose instances are all triggered
             # by ground terms are decided in milliseconds this way where MBQI wanders off; only `unsat` is taken
